@@ -4,4 +4,5 @@ INVARIANT Allowed
 INVARIANT LenientTotal
 INVARIANT StrictOkImpliesLenientSame
 INVARIANT ScratchSane
+INVARIANT MalformedRejected
 INVARIANT Emit
